@@ -113,11 +113,12 @@ def parse_overlay(path, ov=None):
             else:
                 d[sub] = d.get(sub, "") + s + "\n"
     raw = None
+    raw_root = False
     while i < len(lines):
         ln = lines[i]; i += 1
         if raw is not None:
             if ln.strip() == "@end":
-                ov.parts.append(("raw", "\n".join(raw) + "\n", "%s:%d" % (path, i))); raw = None
+                ov.parts.append(("rawroot" if raw_root else "raw", "\n".join(raw) + "\n", "%s:%d" % (path, i))); raw = None
             else:
                 raw.append(ln)
             continue
@@ -137,6 +138,7 @@ def parse_overlay(path, ov=None):
                 ov.parts.append(("raw", open(p).read(), p))
         elif d == "@raw":
             raw = []
+            raw_root = (len(w) > 1 and w[1] == "root")
         elif d == "@mod":
             ov.parts.append(("modopen", w[1]))
         elif d == "@endmod":
@@ -359,6 +361,13 @@ def rewrite(toks, rules, opts, panic_counter):
                 if toks[p].text == "(":
                     e = match_close(toks, p)
                     q = next_sig(toks, p + 1)
+                    if toks[q].kind == "ident" and toks[q].text == "Some" and next_sig(toks, q + 1) == e:
+                        # datatype constructor as a function value: X.map(Some)
+                        r = recv_start(out)
+                        recv = text(out[r:]).strip()
+                        del out[r:]
+                        out.append(gen("(match %s { Ok(v__) => Ok(Some(v__)), Err(e__) => Err(e__) })" % recv))
+                        rules.hit("R14.mapres"); i = e + 1; continue
                     if toks[q].text == "|":
                         q2 = q + 1
                         while toks[q2].text != "|": q2 += 1
@@ -840,6 +849,8 @@ def generate(repo, ov, prop=None, canary=False, only=None):
             continue
         if part[0] == "modclose":
             cur = None; continue
+        if part[0] == "rawroot":
+            ordered.append(("raw", part[1], part[2])); continue
         if cur is None: ordered.append(part)
         else: mods[cur].append(part)
     flat = []
